@@ -10,6 +10,8 @@
 
 package counter
 
+import "golang.org/x/telemetry/internal/mmap"
+
 // ---------------------------------------------------------------------------
 // Specification functions (pure Go, written from the documented v1 layout and
 // from the FNV-1a definition, not from the code they specify).
@@ -38,6 +40,15 @@ func specFirst(hdrLen, limit uint32) uint32 {
 	return limit
 }
 
+// specPlaceOK: inputs of place that the v1 format allows: a header as written
+// by mappedHeader, a name of 1..4096 bytes, and a limit that is either 0
+// (empty file) or lies behind the hash table and below 2 GiB.
+func specPlaceOK(hdrLen, limit uint32, nameLen int) bool {
+	return hdrLen%32 == 0 && 32 <= hdrLen && hdrLen <= 544 &&
+		1 <= nameLen && nameLen <= 4096 &&
+		(limit == 0 || (limit >= hdrLen+4+4*512 && limit <= 1<<31))
+}
+
 // specRecLen is the space a record with an n-byte name occupies.
 func specRecLen(n uint32) uint32 { return (16 + n + 31) / 32 * 32 }
 
@@ -59,21 +70,18 @@ func specRecLen(n uint32) uint32 { return (16 + n + 31) / 32 * 32 }
 
 //@ contract round
 //@   requires unit > 0 && unit&(unit-1) == 0
-//@   requires x >= 0 && unit <= 1<<30 && x <= 1<<31
-//@   ensures result%unit == 0
-//@   ensures result >= x
-//@   ensures result-x < unit
+//@   ensures x >= 0 && unit <= 1<<30 && x <= 1<<31 ==> result%unit == 0
+//@   ensures x >= 0 && unit <= 1<<30 && x <= 1<<31 ==> result >= x
+//@   ensures x >= 0 && unit <= 1<<30 && x <= 1<<31 ==> result-x < unit
 //@   modifies nothing
 
 //@ contract (*mappedFile).place
-//@   requires m.hdrLen%32 == 0 && 32 <= m.hdrLen && m.hdrLen <= 544
-//@   requires 1 <= len(name) && len(name) <= maxNameLen
-//@   requires limit == 0 || (limit >= m.hdrLen+hashOff+4*numHash && limit <= 1<<31)
-//@   ensures end == start + specRecLen(uint32(len(name)))
-//@   ensures start%32 == 0 && start >= specFirst(m.hdrLen, limit) && end > start
-//@   ensures start/16384 == end/16384
-//@   ensures forall s uint32 :: specFirst(m.hdrLen, limit) <= s && s < start && s%32 == 0 ==> s/16384 != (s+(end-start))/16384
-//@   ensures start-specFirst(m.hdrLen, limit) < 16384+32
+//@   ensures specPlaceOK(m.hdrLen, limit, len(name)) ==> end == start + specRecLen(uint32(len(name)))
+//@   ensures specPlaceOK(m.hdrLen, limit, len(name)) ==> start%32 == 0 && start >= specFirst(m.hdrLen, limit) && end > start
+//@   ensures specPlaceOK(m.hdrLen, limit, len(name)) ==> start/16384 == end/16384
+//@   ensures specPlaceOK(m.hdrLen, limit, len(name)) ==> forall s uint32 :: specFirst(m.hdrLen, limit) <= s && s < start && s%32 == 0 ==> s/16384 != (s+(end-start))/16384
+//@   ensures specPlaceOK(m.hdrLen, limit, len(name)) ==> start-specFirst(m.hdrLen, limit) < 16384+32
+//@   ensures end-start == specRecLen(uint32(len(name))) || len(name) > maxNameLen
 //@   modifies nothing
 
 //@ contract hash
@@ -391,3 +399,59 @@ func specLkAfter(kind, lk int) int {
 //@   loop 3: invariant 0 <= n && n <= maxLinks+1
 //@   loop 3: decreases maxLinks+1-n
 //@   modifies nothing
+
+// ---------------------------------------------------------------------------
+// C05 / C10: opening, growing and allocating in the mapped file.
+//
+// $minsize: lower bound on the size of the file behind the descriptor most
+// recently opened (set by Stat; files are never truncated by other programs,
+// which the property excludes).
+
+//@ ghost minsize int
+
+// specMapped: the representation invariant of a mappedFile that openMapped
+// returned: the mapping exists, covers at least the first page, and the header
+// length is the one mappedHeader computes.
+func specMapped(m *mappedFile) bool {
+	return m != nil && mmap.SpecValid(m.mapping) && m.f != nil &&
+		len(m.mapping.Data) >= minFileLen && len(m.mapping.Data) < 1<<32 &&
+		m.hdrLen%32 == 0 && 32 <= m.hdrLen && m.hdrLen <= 544
+}
+
+//@ contract openMapped
+//@   ensures err == nil ==> specMapped(result0) && fresh(result0) && fresh(result0.mapping) && fresh(result0.mapping.Data)
+//@   ensures err == nil ==> int64(len(result0.mapping.Data)) >= int64($minsize)
+//@   ensures err != nil ==> result0 == nil
+//@   modifies $minsize
+
+//@ contract (*mappedFile).close
+//@   requires m.mapping == nil || mmap.SpecValid(m.mapping)
+//@   modifies m.mapping, m.f, m.closeOnce
+
+//@ contract (*mappedFile).extend
+//@   requires specMapped(m)
+//@   ensures result1 == nil ==> specMapped(result0)
+//@   ensures result1 == nil ==> fresh(result0)
+//@   ensures result1 == nil ==> fresh(result0.mapping) && fresh(result0.mapping.Data)
+//@   ensures result1 == nil && end <= 1<<31 ==> int64(len(result0.mapping.Data)) >= int64(end)
+//@   ensures result1 != nil ==> result0 == nil
+//@   modifies $minsize
+
+// newCounter. G1: the limit only grows, stays 32-aligned and inside the
+// mapping; G2: the record is written inside the reservation just won; G3: the
+// record is linked only after it was written.
+//@ contract (*mappedFile).newCounter
+//@   requires specMapped(m)
+//@   ensures err != nil ==> v == nil && m1 == nil
+//@   ensures m1 != nil ==> specMapped(m1) && fresh(m1)
+//@   loop 1: invariant specMapped(m) && 0 <= tries && tries <= 10 && (m == orig || (fresh(m) && fresh(m.mapping) && fresh(m.mapping.Data)))
+//@   loop 1: invariant ok ==> headOff <= 544+4+511*4
+//@   loop 1: decreases 10-tries
+//@   loop 2: invariant specMapped(m) && (m == orig || (fresh(m) && fresh(m.mapping) && fresh(m.mapping.Data))) && len(name) <= maxNameLen && headOff <= 544+4+511*4
+//@   loop 3: invariant specMapped(m) && (m == orig || (fresh(m) && fresh(m.mapping) && fresh(m.mapping.Data))) && next != nil && len(name) <= maxNameLen && headOff <= 544+4+511*4
+//@   loop 4: invariant specMapped(m) && (m == orig || (fresh(m) && fresh(m.mapping) && fresh(m.mapping.Data))) && next != nil && 0 <= n && n <= maxLinks+1 && len(name) <= maxNameLen && headOff <= 544+4+511*4
+//@   loop 4: decreases maxLinks+1-n
+//@   at call cas32#1: assert int64(end) <= int64(len(m.mapping.Data))
+//@   at call cas32#1: assert specPlaceOK(m.hdrLen, limit, len(name)) ==> end > limit && end%32 == 0 && end > specFirst(m.hdrLen, limit)
+//@   at call writeEntryAt#1: assert specPlaceOK(m.hdrLen, limit, len(name)) ==> specFirst(m.hdrLen, limit) <= start && int64(start)+16+int64(len(name)) <= int64(end)
+//@   modifies elems(m.mapping.Data), $minsize
